@@ -49,6 +49,159 @@ def _rows_sampler(rng):
 c_rows.sampler = _rows_sampler
 
 
+# ------------------------------------------------------------------ expand() on a ghost dataset (assumed xarray contract)
+from pyvc import sym as _sym                  # noqa: E402
+from pyvc.sym import SArr as _SArr, Sym as _Sym, lift as _lift      # noqa: E402
+from pyvc import models as _models            # noqa: E402
+import z3 as _z3                               # noqa: E402
+
+
+class GVar:
+    """a variable: dimension names and values (a symbolic vector / matrix or a concrete array)"""
+    __pyvc_symbolic__ = True
+    __pyvc_native__ = True
+
+    def __init__(self, dims, values):
+        self.dims, self.values = tuple(dims), values
+
+    @property
+    def shape(self):
+        return self.values.shape
+
+
+class GDataset:
+    """ASSUMED xarray.Dataset contract, restricted to what expand() uses:
+      isel(**{dim: idx})   every variable along `dim` becomes v[idx] (idx within the dimension), the others are unchanged;
+      ds[name] = dim, vals a new variable along `dim`, whose length must be the size of `dim` (else ValueError);
+      swap_dims({a: b})    b must be a variable along a alone; every variable along a is along b afterwards;
+      drop_vars(name), rename({old: new}) (variables and dimensions; `old` must exist), variables, sizes, ds[name].
+    Every operation but item assignment returns a new dataset."""
+    __pyvc_symbolic__ = True
+    __pyvc_native__ = True
+
+    def __init__(self, variables):
+        self.variables = dict(variables)
+
+    @property
+    def sizes(self):
+        out = {}
+        for v in self.variables.values():
+            for d, n in zip(v.dims, v.shape):
+                out.setdefault(d, n)
+        return out
+
+    def __getitem__(self, name):
+        return self.variables[name]
+
+    def __contains__(self, name):
+        return name in self.variables
+
+    def isel(self, **indexers):
+        new = dict(self.variables)
+        for dim, idx in indexers.items():
+            if dim not in self.sizes:
+                raise ValueError("Dimensions %r do not exist" % (dim,))
+            for name, v in list(new.items()):
+                if dim not in v.dims:
+                    continue
+                if v.dims != (dim,):
+                    raise _sym.OutsideSubset("ghost isel of a multi-dimensional variable")
+                new[name] = GVar(v.dims, _models.getitem(v.values, idx))       # (bounds of idx: a safety obligation)
+        return GDataset(new)
+
+    def __setitem__(self, name, value):
+        dim, vals = value
+        size = self.sizes.get(dim)
+        n = vals.shape[0]
+        if size is not None:
+            c = _sym.ctx()
+            if isinstance(size, _Sym) or isinstance(n, _Sym):
+                if c.branch(_lift(size) != _lift(n)):
+                    from pyvc.interp import PyRaise
+                    raise PyRaise(ValueError("conflicting sizes for dimension %r" % (dim,)))
+            elif size != n:
+                raise ValueError("conflicting sizes for dimension %r" % (dim,))
+        self.variables[name] = GVar((dim,), vals)
+
+    def swap_dims(self, mapping):
+        new = dict(self.variables)
+        for old, to in mapping.items():
+            if to not in new or new[to].dims != (old,):
+                raise ValueError("replacement dimension %r is not a 1D variable along the old dimension %r" % (to, old))
+            for name, v in list(new.items()):
+                if old in v.dims:
+                    new[name] = GVar([to if d == old else d for d in v.dims], v.values)
+        return GDataset(new)
+
+    def drop_vars(self, name):
+        if name not in self.variables:
+            raise ValueError("variable %r not in the dataset" % (name,))
+        new = dict(self.variables)
+        del new[name]
+        return GDataset(new)
+
+    def rename(self, mapping):
+        for old in mapping:
+            if old not in self.variables and old not in self.sizes:
+                raise ValueError("cannot rename %r because it is not a variable or dimension in this dataset" % (old,))
+        new = {}
+        for name, v in self.variables.items():
+            new[mapping.get(name, name)] = GVar([mapping.get(d, d) for d in v.dims], v.values)
+        return GDataset(new)
+
+
+REG.inline_ok.add(M + "expand")
+REG.inline_ok.add("typhon.collocations.collocator:check_collocation_data")
+ASSUMPTIONS.append("xarray.Dataset.isel / item assignment / swap_dims / drop_vars / rename behave as the ghost dataset GDataset states "
+                   "(contracts/C13.py); the real library is exercised in the bounded check expand-collapse-concat")
+
+
+def _expand_setup():
+    ctx = _sym.ctx()
+    nA, nB, N = fresh("nA", "int"), fresh("nB", "int"), fresh("N", "int")
+    requires(nA >= 1, nB >= 1, N >= 1)
+    pairs = _fa(ctx, "pairs", (2, N), "int")
+    x, y, itv = _fa(ctx, "x", (nA,)), _fa(ctx, "y", (nB,)), _fa(ctx, "interval", (N,))
+    requires(forall(0, N, lambda k: 0 <= pairs[0][k] and pairs[0][k] < nA and 0 <= pairs[1][k] and pairs[1][k] < nB))
+    ds = GDataset({
+        "Collocations/pairs": GVar(("Collocations/group", "Collocations/collocation"), pairs),
+        "Collocations/group": GVar(("Collocations/group",), _np.array(["A", "B"])),
+        "Collocations/interval": GVar(("Collocations/collocation",), itv),
+        "A/x": GVar(("A/collocation",), x),
+        "B/y": GVar(("B/collocation",), y),
+    })
+    k = fresh("k", "int")
+    requires(0 <= k, k < N)
+    return ds, pairs, x, y, itv, N, k
+
+
+_expand_setup.__pyvc_thm__ = True
+
+
+@theorem(P, "expand-aligns-pairs")
+def thm_expand():
+    """expand(): row k of every group's data is the data of that group's point of pair k -- for every number of stored points
+    and pairs (also when a group has as many points as there are pairs) and every order of the pairs"""
+    ds, pairs, x, y, itv, N, k = _expand_setup()
+    out = CC.expand(ds)
+    ensures(out["A/x"].dims == ("collocation",) and out["B/y"].dims == ("collocation",) and out["Collocations/interval"].dims == ("collocation",),
+            id="all data share the dimension 'collocation'")
+    ensures(out["A/x"].shape[0] == N and out["B/y"].shape[0] == N, id="one row per pair")
+    a, b, c = out["A/x"].values[k], out["B/y"].values[k], out["Collocations/interval"].values[k]
+    ensures(a == x[pairs[0][k]], id="row k of the primary group is the primary point of pair k")
+    ensures(b == y[pairs[1][k]], id="row k of the secondary group is the secondary point of pair k")
+    ensures(c == itv[k], id="the per-pair metadata keep their order")
+    ensures("Collocations/pairs" not in out.variables, id="the pairs variable is dropped")
+
+
+@theorem(P, "expand-aligns-pairs-CANARY", canary=True)
+def thm_expand_canary():
+    ds, pairs, x, y, itv, N, k = _expand_setup()
+    out = CC.expand(ds)
+    a = out["A/x"].values[k]
+    ensures(a == x[k], id="CANARY: expanded rows are the stored rows (must fail)")
+
+
 # ------------------------------------------------------------------ bounded: expand / collapse / concat_collocations on real xarray data
 def _compact(nprng, rng, n1, n2, npairs, channels=3):
     """a compact collocation dataset built directly: every stored point takes part in at least one pair"""
